@@ -213,4 +213,156 @@ theorem parseAnchorName_eq (lvl : Level) (buf : List Byte) (start : Nat) :
   · rfl
 
 
+/-! ### find_block_scalar_end -/
+
+/-- The vector indentation count is the scalar one. -/
+theorem simdIndent_eq (W : Nat) (hW : W ≤ 32) (buf : List Byte) (q : Nat) :
+    simdIndent W buf q = ((buf.drop q).takeWhile isSpace).length := by
+  unfold simdIndent chunkAt
+  simp only
+  split
+  · rename_i hrem
+    have hlen : W ≤ (buf.drop q).length := by rw [List.length_drop]; exact hrem
+    have hs := countStep W hW (buf.drop q) 0 hlen
+    unfold countTail at hs
+    rw [List.drop_drop] at hs
+    simp only [Nat.zero_add] at hs
+    rw [← hs]
+  · rfl
+
+/-- The per-line test of the vector kernels is the scalar kernel's test. -/
+theorem simdLineTest_eq (W : Nat) (hW : W ≤ 32) (buf : List Byte) (m q : Nat) :
+    simdLineTest W buf m q = lineCheck m buf.length q (buf.drop q) := by
+  unfold simdLineTest
+  by_cases hq : q ≥ buf.length
+  · rw [if_pos hq, List.drop_eq_nil_of_le hq]; rfl
+  · rw [if_neg hq]
+    have hq' : q < buf.length := by omega
+    rw [simdIndent_eq W hW]
+    rw [List.drop_eq_getElem_cons hq']
+    unfold lineCheck
+    simp only
+    rw [← List.drop_eq_getElem_cons hq']
+    generalize hind : ((buf.drop q).takeWhile isSpace).length = indent
+    rw [List.drop_drop]
+    by_cases hlt : q + indent < buf.length
+    · rw [if_pos hlt, List.drop_eq_getElem_cons hlt]
+      have hg : buf.getD (q + indent) 0#8 = buf[q + indent] := by
+        rw [List.getD_eq_getElem?_getD, List.getElem?_eq_getElem hlt]; rfl
+      simp only [hg]
+      have hb : (buf[q + indent] != 0x0a#8 && buf[q + indent] != 0x0d#8) = !isBreak buf[q + indent] := by
+        unfold isBreak; cases h1 : buf[q + indent] == 0x0a#8 <;> cases h2 : buf[q + indent] == 0x0d#8 <;> simp [bne, h1, h2]
+      rw [hb]
+    · rw [if_neg hlt, List.drop_eq_nil_of_le (by omega)]
+
+/-- The scalar kernel visiting the `n` positions from `q`. -/
+def scanPos (buf : List Byte) (m : Nat) : Nat → Nat → Option Nat
+  | 0, _ => none
+  | n + 1, q =>
+    if isBreak (buf.getD q 0#8) then
+      match lineCheck m buf.length (q + 1) (buf.drop (q + 1)) with
+      | some r => some r
+      | none => scanPos buf m n (q + 1)
+    else scanPos buf m n (q + 1)
+
+theorem blockEndScan_cons (m len : Nat) (b : Byte) (rest : List Byte) (pos : Nat) :
+    blockEndScan m len (b :: rest) pos =
+      if isBreak b then
+        match lineCheck m len (pos + 1) rest with
+        | some r => r
+        | none => blockEndScan m len rest (pos + 1)
+      else blockEndScan m len rest (pos + 1) := rfl
+
+theorem blockEndScan_scanPos (buf : List Byte) (m : Nat) : ∀ n q, q + n ≤ buf.length →
+    blockEndScan m buf.length (buf.drop q) q =
+      match scanPos buf m n q with
+      | some r => r
+      | none => blockEndScan m buf.length (buf.drop (q + n)) (q + n) := by
+  intro n
+  induction n with
+  | zero => intro q _; rfl
+  | succ n ih =>
+    intro q hq
+    have hq' : q < buf.length := by omega
+    have hg : buf.getD q 0#8 = buf[q] := by
+      rw [List.getD_eq_getElem?_getD, List.getElem?_eq_getElem hq']; rfl
+    rw [List.drop_eq_getElem_cons hq', blockEndScan_cons, scanPos, hg]
+    have hn : q + (n + 1) = q + 1 + n := by omega
+    by_cases hb : isBreak buf[q] = true
+    · rw [if_pos hb, if_pos hb]
+      cases hc : lineCheck m buf.length (q + 1) (buf.drop (q + 1)) with
+      | some r => rfl
+      | none => simp only; rw [ih (q + 1) (by omega), hn]
+    · rw [if_neg hb, if_neg hb, ih (q + 1) (by omega), hn]
+
+/-- Lane loop over the break lanes of the chunk at `pos + k` = scalar visit of those positions. -/
+theorem laneLoop_scanPos (W : Nat) (hW : W ≤ 32) (buf : List Byte) (m pos : Nat) : ∀ n k, pos + k + n ≤ buf.length →
+    laneLoop (simdLineTest W buf m) pos (((buf.drop (pos + k)).take n).map laneBreak) k =
+      scanPos buf m n (pos + k) := by
+  intro n
+  induction n with
+  | zero => intro k _; simp [laneLoop, scanPos]
+  | succ n ih =>
+    intro k hk
+    have hq' : pos + k < buf.length := by omega
+    have hg : buf.getD (pos + k) 0#8 = buf[pos + k] := by
+      rw [List.getD_eq_getElem?_getD, List.getElem?_eq_getElem hq']; rfl
+    rw [List.drop_eq_getElem_cons hq', List.take_succ_cons, List.map_cons, laneLoop, scanPos, hg,
+      laneBreak_msb, simdLineTest_eq W hW]
+    have hk1 : pos + k + 1 = pos + (k + 1) := by omega
+    rw [hk1, ih (k + 1) (by omega)] <;> rfl
+
+theorem blockEndSimd_succ (W : Nat) (buf : List Byte) (m fuel pos : Nat) :
+    blockEndSimd W buf m (fuel + 1) pos =
+      if pos + W < buf.length then
+        match nlMaskLoop (simdLineTest W buf m) pos 33 (movemask ((chunkAt buf pos W).map laneBreak)) with
+        | some r => r
+        | none => blockEndSimd W buf m fuel (pos + W)
+      else findBlockScalarEndScalar buf pos m := rfl
+
+theorem blockEndSimd_eq (W : Nat) (hW : W ≤ 32) (buf : List Byte) (m : Nat) : ∀ fuel pos,
+    blockEndSimd W buf m fuel pos = findBlockScalarEndScalar buf pos m := by
+  intro fuel
+  induction fuel with
+  | zero => intro pos; rfl
+  | succ fuel ih =>
+    intro pos
+    rw [blockEndSimd_succ]
+    by_cases h : pos + W < buf.length
+    · rw [if_pos h]
+      unfold chunkAt
+      have hcl : (((buf.drop pos).take W).map laneBreak).length = W := by
+        rw [List.length_map, List.length_take, List.length_drop]; omega
+      have hm := nlMaskLoop_lanes (simdLineTest W buf m) pos (((buf.drop pos).take W).map laneBreak) 0 33
+        (by omega) (by omega)
+      simp only [Nat.pow_zero, Nat.one_mul] at hm
+      rw [hm]
+      have hl := laneLoop_scanPos W hW buf m pos W 0 (by omega)
+      simp only [Nat.add_zero] at hl
+      rw [hl, ih]
+      unfold findBlockScalarEndScalar
+      rw [blockEndScan_scanPos buf m W pos (by omega)]
+    · rw [if_neg h]
+
+theorem blockEndKernel_eq (lvl : Level) (buf : List Byte) (start m : Nat) :
+    blockEndKernel lvl buf start m = findBlockScalarEndScalar buf start m := by
+  cases lvl
+  · exact blockEndSimd_eq 32 (by decide) buf m _ _
+  · exact blockEndSimd_eq 16 (by decide) buf m _ _
+  · rfl
+
+theorem findBlockScalarEnd_eq (lvl : Level) (buf : List Byte) (start m : Nat) :
+    findBlockScalarEnd lvl buf start m = findBlockScalarEndScalar buf start m := by
+  have hge : start ≥ buf.length → findBlockScalarEndScalar buf start m = buf.length := by
+    intro h; unfold findBlockScalarEndScalar; rw [List.drop_eq_nil_of_le h]; rfl
+  cases lvl
+  · simp only [findBlockScalarEnd]; split
+    · rename_i h; exact (hge h).symm
+    · exact blockEndKernel_eq _ _ _ _
+  · simp only [findBlockScalarEnd]; split
+    · rename_i h; exact (hge h).symm
+    · exact blockEndKernel_eq _ _ _ _
+  · rfl
+
+
 end SV.Yaml
